@@ -102,6 +102,12 @@ CHECKS["C19"] = dict(
    note="Inputs stay within what each helper documents; calls the static checker rejects are discarded and counted (C07).",
    ref="DESIGN.md section 5 C19")
 
+CHECKS["C06"] = dict(
+   technique="property-based testing against a conformance predicate written from the property text, with inline / named / let-bound metamorphism",
+   text="Generated (constraint, value) pairs - exemplars nested to depth 3 with same-shape or perturbed values, int/float ranges open or closed with all boundary neighbours, alternations of literals and ranges - are built with the constraint written inline, behind a `constraint` name and behind a let-bound exemplar, and with the value written as a literal or computed so that its static type is hidden; the build must succeed iff the conformance predicate holds and all forms must agree.",
+   note="One open finding (exemplar constraints are enforced only statically, by documented design) is listed in KNOWN_FINDINGS and excluded by its exact signature; NULL against a range or alternation is unstated and only counted.",
+   ref="DESIGN.md section 5 C06")
+
 PENDING = {}
 
 def main():
